@@ -165,6 +165,7 @@ struct IWorld {
     // generator (C12 / C13)
     virtual std::string write_static_offsets() = 0;
     virtual std::string encode(const generic_compiler& c) = 0;
+    virtual std::string encode_for_default_policy(const generic_compiler& c) = 0;
     virtual std::string forward_declarations_of_methods(bool via_wrapper) = 0; // C19
     // static offsets (C12): methods of instance 2 of every shape are compiled with a
     // static_offsets specialisation whose arrays the harness fills at run time
